@@ -458,7 +458,9 @@ func (x *Exec) callSSA(caller *frame, fn *ssa.Function, args []Value, env []Valu
 	if nat := x.eng.findNative(fn); nat != nil {
 		x.eng.stubsUsed.LoadOrStore(fn.String(), struct{}{})
 		fr := &frame{x: x, caller: caller, fn: fn}
-		return nat(x, fr, args)
+		if r := nat(x, fr, args); r != Value(declineNative) {
+			return r
+		}
 	}
 	name := fn.String()
 	if fn.Blocks == nil {
